@@ -9,6 +9,9 @@ for cf in sorted(glob.glob("/verif/seeded/_confirm/*.json")):
     dst = f"/verif/seeded/{pid}-{k}"
     if c["status"] != "confirmed":
         print("not confirmed:", pid, k, c["status"], c["detail"])
+        if not os.path.exists(f"{dst}/meta.json"):
+            continue
+        # keep an already promoted change (e.g. one neutralised by a later fix) as it is
         continue
     os.makedirs(dst, exist_ok=True)
     shutil.copy(f"{src}/patch.diff", f"{dst}/patch.diff")
@@ -22,6 +25,8 @@ for cf in sorted(glob.glob("/verif/seeded/_confirm/*.json")):
     meta["id"] = f"{pid}-{k}"
     meta["confirmed"] = {"by": "tools/confirm_seeded.sh on a scratch worktree", "base_commit": old.get("confirmed", {}).get("base_commit", base),
                          "result": c["detail"], "rebased": os.path.exists(f"{src}/patch.orig.diff")}
+    if "neutralised" in old:
+        meta["neutralised"] = old["neutralised"]
     if "detection" in old:
         meta["detection"] = old["detection"]
     json.dump(meta, open(f"{dst}/meta.json", "w"), indent=1)
